@@ -76,6 +76,9 @@ pub fn cmd_history(args: &Args) -> J {
                 4 => {
                     let a = gen_acct(&mut rng);
                     let ok = h.record_snapshot(t, inc, a.clone());
+                    // a touched account left empty is a deletion (FinalizedAccount::from, EIP-161):
+                    // the recorded effect is Snapshot(None)
+                    let a = a.filter(|i| !i.is_empty());
                     ("rec-snapshot", format!("rec {t} {inc} snap {}", acct_tokens(&a)), (ok as u8).to_string())
                 }
                 5 => {
